@@ -51,6 +51,17 @@ TableFull(fn) ==
    \A dt \in FloatTypes :
       /\ P(CaseRec("table", fn, <<GridX(fn, dt, <<GridLen(fn)>>, 0)>>, MustValue(<<GridY(fn, dt, <<GridLen(fn)>>, 0)>>),
                    "ulp:" \o ToString(UlpOf(fn, 0, GridLen(fn))), <<"value", dt, "full_grid">>, <<>>))
+      \* the whole grid behind a leading NaN / infinity (and in front of a trailing one): an element's image does not depend on its neighbours
+      /\ \A lead \in {OrdNaN, 2139095040, -2139095040} :
+            (lead = OrdNaN \/ HasArg(fn, lead)) =>
+               LET n == GridLen(fn)
+                   lx == IF lead = OrdNaN THEN NaN ELSE Ord(lead)
+                   ly == IF lead = OrdNaN THEN NaN ELSE OrdOrNaN(Lookup(fn, lead))
+                   gx == GridX(fn, dt, <<n>>, 0).data  gy == GridY(fn, dt, <<n>>, 0).data IN
+               /\ P(CaseRec("table", fn, <<T(dt, <<n + 1>>, <<lx>> \o gx)>>, MustValue(<<T(dt, <<n + 1>>, <<ly>> \o gy)>>),
+                            "ulp:" \o ToString(UlpOf(fn, 0, n)), <<"value", dt, "special_first">>, <<>>))
+               /\ P(CaseRec("table", fn, <<T(dt, <<n + 1>>, gx \o <<lx>>)>>, MustValue(<<T(dt, <<n + 1>>, gy \o <<ly>>)>>),
+                            "ulp:" \o ToString(UlpOf(fn, 0, n)), <<"value", dt, "special_last">>, <<>>))
       /\ P(CaseRec("table", fn, <<T(dt, <<2>>, <<NaN, Fin(0)>>)>>, MustValue(<<T(dt, <<2>>, <<NaN, OrdOrNaN(Lookup(fn, 0))>>)>>),
                    "ulp:" \o ToString(Ulp(fn)), <<"value", dt, "nan_input">>, <<>>))
 
